@@ -385,6 +385,12 @@ func (r *real) Exec(line string) (out string) {
 			}
 			resp, err := r.gnmi.Set(ctx, req)
 			if err != nil {
+				if ctx.Err() != nil {
+					// the caller's own deadline expired: whether the handler noticed it in its wait loop (a context
+					// error) or inside a store call (atomix turns it into a typed Timeout) is timing, not an answer
+					// about the transaction
+					return "ctx"
+				}
 				return errText(err)
 			}
 			var rs []string
@@ -407,6 +413,9 @@ func (r *real) Exec(line string) (out string) {
 		case "rollback":
 			resp, err := r.admin.RollbackTransaction(ctx, &adminapi.RollbackRequest{Index: 1})
 			if err != nil {
+				if ctx.Err() != nil {
+					return "ctx"
+				}
 				return errText(err)
 			}
 			r.lastID = resp.ID
